@@ -240,6 +240,8 @@ def plan(tier, seed):
                ('RotatedToric3DCode', (4, 6, 1)),
                ('Toric2DCode', (2, 7)), ('Toric2DCode', (6, 3)),
                ('Color488Code', (1, 3)), ('Color488Code', (3, 1)),
+               ('Color666PlanarCode', (3, 1)), ('Color666PlanarCode', (2, 5)),
+               ('Color666PlanarCode', (4, 1)),
                ('RhombicToricCode', (4, 2, 2)),
                ('RhombicToricCode', (2, 2, 4)),
                ('XCubeCode', (2, 2, 5))]
